@@ -6,7 +6,8 @@ Associators / AssociatorNames, instance and class level).  All theorems quantify
 repositories, sources and filters.
 -/
 import Proofs.Lemmas.AssocStore
-import Proofs.Lemmas.AssocWrite3
+import Proofs.Lemmas.AssocWrite4
+import Proofs.Lemmas.AssocMore
 
 namespace C13
 open Pywbem.Proto Pywbem.Model.Assoc
@@ -655,12 +656,15 @@ theorem C13_add_preserves_store_ok {is : List Inst} {a : Inst} {n : Name}
 Vocabulary (definitions in `Proofs/Lemmas/AssocWrite*.lean`, model in `Pywbem/Model/AssocWrite.lean`):
 * `WInv r` — the shadow-copy discipline of a repository: namespaces unique up to case; stored paths carry
   their store's namespace and no host; one instance per class name + keybindings in a store; an instance
-  with ends lives in a namespace one of its ends names; an instance without ends has no namesake in another
-  namespace; for every namespace an end names a namesake is stored there; namesakes have equal properties
-  and class (they are copies of one instance).
+  with ends lives in a namespace one of its ends names; an association instance without ends has no namesake
+  in another namespace; for every namespace an end names a namesake is stored there; namesakes of an
+  association instance have its properties and class (they are copies of one instance).
 * `CreateOk r ns a` — the request namespace is named by an end of `a` (or `a` has no end) and class name +
   keybindings of `a` are new in the whole repository.
-* `ModifyOk sv ns p chg` — the merged instance still names the request namespace by an end (or has no end).
+* `ModifyOk sv ns p chg` — the addressed instance has a reference property and the merged instance still names
+  the request namespace by an end (or has no end).
+* `HistOk sv ops` — every Create/Modify request of the history meets its request condition in the state it is
+  applied to.
 * `runW sv ops` — the server after the write requests `ops` (a refused request changes nothing). -/
 
 /-- **assoc_symmetric**, strongest form: only the association instances that actually reference `y`
@@ -720,8 +724,8 @@ theorem C13_symmetric_across_namespaces {sv : Server} (hinv : WInv sv.repo)
   obtain ⟨T', hT', hT'n, a', ha', hpk⟩ := hinv.shadow S hSr a ha n' hmem
   have hTT : T' = T := hinv.uniq T' hT' T hTr (ieq_trans hT'n (ieq_trans hn'2 (ieq_symm hTn)))
   subst hTT
-  obtain ⟨hprops, hcls⟩ := hinv.coh T' hT' S hSr a' ha' a ha hpk
-  exact ⟨a', ha', hcls, hprops⟩
+  obtain ⟨hprops, hcls⟩ := hinv.coh S hSr T' hT' a ha a' ha' (pkEq_symm hpk) (hasRef_of_endNss hmem)
+  exact ⟨a', ha', hcls.symm, hprops.symm⟩
 
 /-- **the write path keeps the discipline**, one request: CreateInstance, ModifyInstance and
     DeleteInstance of association instances preserve `WInv` (for Create and Modify under the request
@@ -734,15 +738,6 @@ theorem C13_write_step_keeps_discipline_partial {sv sv' : Server} (hinv : WInv s
   ⟨fun _ _ hreq h => create_preserves hinv hreq h,
    fun _ _ _ hreq h => modify_preserves hinv hreq h,
    fun _ _ h => delete_preserves hinv h⟩
-
-/-- the request conditions along a history (each evaluated in the state the request meets) -/
-def HistOk : Server → List WOp → Prop
-  | _, [] => True
-  | sv, op :: ops =>
-    (match op with
-     | .create ns a => CreateOk sv.repo ns a
-     | .modify ns p chg => ModifyOk sv ns p chg
-     | .delete _ _ => True) ∧ HistOk (stepW sv op) ops
 
 /-- **invariant over histories**: after ANY history of CreateInstance / ModifyInstance / DeleteInstance
     requests for association instances (accepted or refused, in any order, through any namespace) whose
@@ -785,6 +780,183 @@ theorem C13_create_loop_is_one_pass (sv : Server) (ns : Name) (a : Inst) :
     (otherNamespaces a ns ++ [ns]).foldl (fun r n => addInst r n a) sv.repo =
       mapInsts sv.repo (createF (otherNamespaces a ns ++ [ns]) a) :=
   foldl_addInst_eq a _ _ (nodup_other_target a ns)
+
+/-- the executable checks the K driver reports for every write history (`disciplineB`, `histOkB` of
+    `Model/AssocWrite.lean`) decide exactly the discipline and the request conditions of the theorems -/
+theorem C13_discipline_checks_decide (sv : Server) (ops : List WOp) :
+    (disciplineB sv.repo = true ↔ WInv sv.repo) ∧ (histOkB sv ops = true ↔ HistOk sv ops) :=
+  ⟨disciplineB_iff, histOkB_iff ops sv⟩
+
+/-! ## 12. discharged modelling conventions: Python set, fuel, host, class-level results -/
+
+/-- **Python set = list modulo equality** (discharged): the duplicate-free list that the client sees
+    (`dedupPaths`: first inserted representative of each class of equal paths) has no two equal paths,
+    contains only computed values, and represents every computed value. -/
+theorem C13_set_semantics (l : List Path) :
+    (dedupPaths l).Pairwise (fun a b => b.eqv a = false) ∧
+    (∀ y ∈ dedupPaths l, y ∈ l) ∧
+    (∀ y ∈ l, ∃ y' ∈ dedupPaths l, y'.eqv y = true) :=
+  ⟨dedupPaths_nodup l, fun _ h => dedupPaths_subset h, fun _ h => dedupPaths_covers h⟩
+
+/-- the operation with set semantics (what `FakedWBEMConnection.AssociatorNames` returns, one entry per
+    distinct stored path) and the list-valued operation of sections 1-5 fail alike, and succeed with
+    the same paths up to multiplicity: all theorems about membership carry over. -/
+theorem C13_set_semantics_operation {sv : Server} {ns : Name} {x : Path} {f : AFilter} :
+    (∀ e, associatorNamesSetI sv ns x f = .error e ↔ associatorNamesI sv ns x f = .error e) ∧
+    (∀ l', associatorNamesSetI sv ns x f = .ok l' → ∃ l, associatorNamesI sv ns x f = .ok l ∧
+      (∀ z ∈ l', z ∈ l) ∧ (∀ z ∈ l, ∃ z' ∈ l', z'.eqv z = true)) := by
+  unfold associatorNamesSetI associatorNamesI withNs
+  cases hS : findNs sv.repo ns with
+  | none => simp
+  | some S =>
+    simp only
+    cases hn : assocInstNames S (srcPath ns x) f with
+    | error e => simp
+    | ok l0 =>
+      simp only
+      refine ⟨by simp, ?_⟩
+      intro l' hl'
+      cases hl'
+      refine ⟨_, rfl, ?_, ?_⟩
+      · intro z hz
+        obtain ⟨y, hy, rfl⟩ := List.mem_map.mp hz
+        exact List.mem_map.mpr ⟨y, dedupPaths_subset hy, rfl⟩
+      · intro z hz
+        obtain ⟨y, hy, rfl⟩ := List.mem_map.mp hz
+        obtain ⟨y', hy', he⟩ := dedupPaths_covers hy
+        exact ⟨fillHost sv.host y', List.mem_map.mpr ⟨y', hy', rfl⟩, fillHost_eqv he⟩
+
+/-- **host filling** (finding C13-KF4 as a theorem about the code): every path AssociatorNames returns
+    carries a host (the stored one or the server's), every instance Associators returns has a path
+    without host. -/
+theorem C13_host_filling_exact {sv : Server} {ns : Name} {x : Path} {f : AFilter} :
+    (∀ l, associatorNamesI sv ns x f = .ok l → ∀ z ∈ l, z.host.isSome = true) ∧
+    (∀ is, associatorsI sv ns x f = .ok is → ∀ i ∈ is, i.path.host = none) := by
+  constructor
+  · intro l hl z hz
+    unfold associatorNamesI withNs at hl
+    cases hS : findNs sv.repo ns with
+    | none => simp [hS] at hl
+    | some S =>
+      simp only [hS] at hl
+      cases hn : assocInstNames S (srcPath ns x) f with
+      | error e => simp [hn] at hl
+      | ok l0 =>
+        simp only [hn] at hl
+        cases hl
+        obtain ⟨y, _, rfl⟩ := List.mem_map.mp hz
+        unfold fillHost
+        cases hh : y.host <;> simp [hh]
+  · intro is his i hi
+    unfold associatorsI withNs at his
+    cases hS : findNs sv.repo ns with
+    | none => simp [hS] at his
+    | some S =>
+      simp only [hS] at his
+      cases hn : assocInstNames S (srcPath ns x) f with
+      | error e => simp [hn] at his
+      | ok l0 =>
+        simp only [hn] at his
+        have hmap := mapE_ok_iff.mp his
+        -- every fetched instance went through `getInstance`, which clears the host
+        have : ∀ (l : List Path) (is : List Inst), l.map (fetchEnd sv) = is.map Except.ok → ∀ i ∈ is, i.path.host = none := by
+          intro l
+          induction l with
+          | nil => intro is h i hi; cases is <;> simp_all
+          | cons y ys ih =>
+            intro is h i hi
+            cases is with
+            | nil => cases hi
+            | cons j js =>
+              simp only [List.map_cons, List.cons.injEq] at h
+              rcases List.mem_cons.mp hi with rfl | hi
+              · have hj := h.1
+                unfold fetchEnd at hj
+                cases hE : endStore sv y with
+                | error e => simp [hE] at hj
+                | ok T =>
+                  simp only [hE] at hj
+                  unfold getInstance at hj
+                  cases hF : findInst T.insts y with
+                  | none => simp [hF] at hj
+                  | some b => simp [hF] at hj; rw [← hj]
+              · exact ih js h.2 i hi
+        exact this l0 is hmap i hi
+
+/-- **fuel discharged**: in a class store that admits a rank (strictly increasing from superclass to
+    subclass, below the number of classes — e.g. the position in creation order; such a rank exists iff
+    the superclass links have no cycle), the recursion depth `|classes| + 1` that the model gives
+    `_get_subclass_names` reaches every stored descendant. -/
+theorem C13_fuel_suffices {cs : List Cls} {rank : Name → Nat} (hr : Ranked cs rank) {x a : Name}
+    (h : Desc cs x a) : x ∈ subNamesDeep (cs.length + 1) cs a :=
+  subNamesDeep_complete (desc_fuel hr h)
+
+/-- hence, in a ranked class store, an active class filter admits EXACTLY the class itself and its
+    stored descendants (soundness + completeness without a bound on the chain length). -/
+theorem C13_class_filter_exact {cs : List Cls} {rank : Name → Nat} (hr : Ranked cs rank) {fn c : Name}
+    (hne : fn.isEmpty = false) :
+    classAdmits cs (some fn) c = true ↔ (lower c = lower fn ∨ ∃ d, Desc cs d fn ∧ lower c = lower d) := by
+  constructor
+  · exact C13_class_filter_sound hne
+  · intro h
+    apply C13_class_filter_complete hne
+    rcases h with h | ⟨d, hd, hdc⟩
+    · exact Or.inl h
+    · exact Or.inr ⟨d, desc_fuel hr hd, hdc⟩
+
+/-- **class-level ReferenceNames, characterised**: a class name is returned iff it is the name of a stored
+    class with the Association qualifier that has a reference property whose declared class is the source
+    class or one of its superclasses (names modulo case), admitted by Role, the class itself admitted by
+    ResultClass (incl. subclasses). -/
+theorem C13_class_reference_characterisation {S : NsStore} {cn : Name} {rc role : Option Name} {l sup : List Name}
+    (hsup : superNames S.classes cn = .ok sup) (h : refClassNames S cn rc role = .ok l) (n : Name) :
+    n ∈ l ↔ ∃ c ∈ S.classes, c.name = n ∧ c.isAssoc = true ∧ ∃ p ∈ c.props, p.isRef = true ∧
+      lower p.refCls ∈ (sup ++ [cn]).map lower ∧
+      (subclassesLc S.classes rc = [] ∨ lower c.name ∈ subclassesLc S.classes rc) ∧
+      (∀ r, lcOpt role = some r → lower p.name = r) := by
+  unfold refClassNames at h
+  cases hr : refClasses S cn rc role with
+  | error e => simp [hr] at h
+  | ok rl =>
+    simp only [hr] at h
+    cases h
+    obtain ⟨_, _, sup', hsup', hrl⟩ := refClasses_ok hr
+    rw [hsup] at hsup'; cases hsup'
+    subst hrl
+    constructor
+    · intro hn
+      obtain ⟨c, hc, rfl⟩ := List.mem_map.mp hn
+      obtain ⟨hcS, hcond⟩ := List.mem_filter.mp hc
+      simp only [Bool.and_eq_true, List.any_eq_true] at hcond
+      obtain ⟨hassoc, p, hp, hpr, hm⟩ := hcond
+      exact ⟨c, hcS, rfl, hassoc, p, hp, hpr, refPropMatches_iff.mp hm⟩
+    · rintro ⟨c, hc, rfl, hassoc, p, hp, hpr, hm⟩
+      refine List.mem_map.mpr ⟨c, List.mem_filter.mpr ⟨hc, ?_⟩, rfl⟩
+      simp only [Bool.and_eq_true, List.any_eq_true]
+      exact ⟨hassoc, p, hp, hpr, refPropMatches_iff.mpr hm⟩
+
+/-- **class-level AssociatorNames, characterised**: a class name `n` is returned iff some class that
+    class-level ReferenceNames(ResultClass := AssocClass, Role) returns declares a reference property of
+    class `n` that is admitted by ResultRole, whose class is admitted by ResultClass, and that is not the
+    single use of the source class itself (the source end). -/
+theorem C13_class_associator_characterisation {S : NsStore} {cn : Name} {f : AFilter} {l : List Name}
+    (h : assocClassNames S cn f = .ok l) (n : Name) :
+    n ∈ l ↔ ∃ rl, refClasses S cn f.assocClass f.role = .ok rl ∧ ∃ c ∈ rl, ∃ q ∈ c.props, q.refCls = n ∧
+      q.isRef = true ∧
+      (subclassesLc S.classes f.assocClass = [] ∨ lower c.name ∈ subclassesLc S.classes f.assocClass) ∧
+      (subclassesLc S.classes f.resultClass = [] ∨ lower q.refCls ∈ subclassesLc S.classes f.resultClass) ∧
+      (∀ r, lcOpt f.resultRole = some r → lower q.name = r) ∧
+      ¬ (lower q.refCls = lower cn ∧ singleUse c (lower q.refCls) = true) := by
+  obtain ⟨_, _, rl, hrl, hl⟩ := assocClassNames_ok h
+  subst hl
+  simp only [List.mem_flatMap, mem_assocClassEnds]
+  constructor
+  · rintro ⟨c, hc, q, hq, hqn, hqr, hm, hskip⟩
+    obtain ⟨h1, h2, h3⟩ := assocPropMatches_iff.mp hm
+    exact ⟨rl, hrl, c, hc, q, hq, hqn, hqr, h1, h2, h3, hskip⟩
+  · rintro ⟨rl', hrl', c, hc, q, hq, hqn, hqr, h1, h2, h3, hskip⟩
+    rw [hrl] at hrl'; cases hrl'
+    exact ⟨c, hc, q, hq, hqn, hqr, assocPropMatches_iff.mpr ⟨h1, h2, h3⟩, hskip⟩
 
 /-! ## 10. non-vacuity and negation witnesses (closed instances, checked by evaluation) -/
 
@@ -933,8 +1105,8 @@ def histW : List WOp :=
    .create ['B'] (link nL nsB 21 (pb 3) (pa 2) none),
    .delete nsA { cls := nL, ns := none, host := none, key := 21 }]
 
-example : WInv svW.repo := by constructor <;> decide
-example : WInv svGood.repo := by constructor <;> decide
+example : WInv svW.repo := disciplineB_iff.mp (by decide)
+example : WInv svGood.repo := disciplineB_iff.mp (by decide)
 example : CreateOk svW.repo nsA (link nL nsA 20 (pa 1) (pb 3) none) := by constructor <;> decide
 example : ((runW svW (histW.take 1)).repo.map (fun S => S.insts.length)) = [3, 2, 1] := by decide
 example : ((runW svW (histW.take 2)).repo.map (fun S => S.insts.length)) = [3, 1, 1] := by decide
@@ -956,7 +1128,7 @@ theorem C13_write_discipline_fails_without_home :
     have : (createAssoc svW nsC (link nL nsC 30 (pa 1) (pb 3) none)).toOption.isSome = true := by decide
     simp [hc, Except.toOption] at this
   | ok sv' =>
-    have hw := h svW sv' nsC _ (by constructor <;> decide) hc
+    have hw := h svW sv' nsC _ (disciplineB_iff.mp (by decide)) hc
     have hrepo : (createAssoc svW nsC (link nL nsC 30 (pa 1) (pb 3) none)).toOption.map (·.repo) =
         some (addInsts svW.repo [nsA, nsB, nsC] (link nL nsC 30 (pa 1) (pb 3) none)) := by decide
     simp only [hc, Except.toOption, Option.map_some, Option.some.injEq] at hrepo
@@ -964,6 +1136,11 @@ theorem C13_write_discipline_fails_without_home :
     rw [hrepo] at hloc
     revert hloc
     decide
+
+/-- non-vacuity of the rank hypothesis and of the set semantics -/
+example : Ranked classes (fun n => if n = ['n'] then 0 else if n = ['m'] then 1 else if n = ['l'] then 2 else 3) := by
+  constructor <;> decide
+example : dedupPaths [pa 1, { pa 1 with cls := ['n'] }, pa 2, pa 1] = [pa 1, pa 2] := by decide
 
 end Witness
 
